@@ -174,6 +174,18 @@ pub fn run(env: &Env) -> Rec {
                     labels.push(format!("{}x{}", d, c));
                 }
             }
+            // c as the neighbour / label-mate that each context rule inspects
+            labels.push(format!("{}\u{30FB}", c));
+            labels.push(format!("\u{30FB}{}", c));
+            labels.push(format!("{}\u{200D}", c));
+            labels.push(format!("\u{628}\u{200C}{}", c));
+            labels.push(format!("{}\u{200C}\u{628}", c));
+            labels.push(format!("\u{628}{}\u{200C}\u{628}", c));
+            labels.push(format!("\u{375}{}", c));
+            labels.push(format!("{}\u{5F3}", c));
+            labels.push(format!("l\u{B7}{}", c));
+            labels.push(format!("\u{660}{}", c));
+            labels.push(format!("{}\u{6F0}", c));
             for l in &labels {
                 s.clear();
                 s.push_str(l);
